@@ -25,6 +25,15 @@ use std::sync::{Mutex, OnceLock};
 
 const PROP: &str = "C06";
 pub const READ_BUDGET: u32 = 200_000;
+
+/// The budget in force: READ_BUDGET, except in the child processes of the minimiser of a file-read loop (see
+/// `minimise`), which get a tenth of it through the environment.
+fn read_budget() -> u32 {
+    std::env::var("VERIF_MINIMISER_READ_BUDGET")
+        .ok()
+        .and_then(|v| v.parse().ok())
+        .unwrap_or(READ_BUDGET)
+}
 pub const PIPELINES: &[&str] = &["build", "analysis", "lsp", "format"];
 
 fn fragments() -> &'static Vec<String> {
@@ -48,7 +57,14 @@ pub struct Case {
 fn fault_to_json(f: &Fault) -> Value {
     let (kind, arg) = match &f.kind {
         FaultKind::Truncate(n) => ("short_file", json!(n)),
-        FaultKind::Replace(b) => ("flap", json!(String::from_utf8_lossy(b))),
+        // (exactly: a replay that gets other bytes than the run is another case)
+        FaultKind::Replace(b) => (
+            "flap",
+            match std::str::from_utf8(b) {
+                Ok(s) => json!(s),
+                Err(_) => json!({ "bytes": b }),
+            },
+        ),
         k => (k.name(), Value::Null),
     };
     json!({"path": f.path.to_string_lossy(), "nth": f.nth, "op": match f.op { Op::Read => "read", Op::Write => "write", Op::WriteData => "write_data" }, "kind": kind, "arg": arg})
@@ -63,7 +79,16 @@ fn fault_from_json(v: &Value) -> Option<Fault> {
         "eintr" => FaultKind::Interrupted,
         "enospc" => FaultKind::NoSpace,
         "short_file" => FaultKind::Truncate(v.get("arg")?.as_u64()? as usize),
-        "flap" => FaultKind::Replace(v.get("arg")?.as_str()?.as_bytes().to_vec()),
+        "flap" => FaultKind::Replace(match v.get("arg")? {
+            Value::String(s) => s.as_bytes().to_vec(),
+            Value::Object(o) => o
+                .get("bytes")?
+                .as_array()?
+                .iter()
+                .map(|b| b.as_u64().unwrap_or(0) as u8)
+                .collect(),
+            _ => return None,
+        }),
         _ => return None,
     };
     Some(Fault {
@@ -729,7 +754,7 @@ pub fn execute(c: &Case, stats: &mut RunStats) -> Option<Found> {
     // logical clock for loops over the file system (import discovery). Not small: a macro that imports a file
     // 32 levels deep, in a project whose passes only end at the cap of 256, legitimately reads 10 000 times
     // (a budget of 6 000 was a false alarm under VERIF_SEED=1, found by a seed sweep)
-    d.read_budget = Some(READ_BUDGET);
+    d.read_budget = Some(read_budget());
     let paths: BTreeSet<PathBuf> = d.files.keys().cloned().collect();
     disk::install(d);
     passwatch::install();
@@ -1210,6 +1235,24 @@ fn minimise(cli: &Cli, c: &Case, found: &Found) -> (Case, Found) {
     if !same(&best) {
         return (best, found.clone());
     }
+    // Every probe of a file-read loop runs into the budget, half a minute each. The probes of the minimiser get a
+    // tenth of the budget (their child processes read it from the environment); what comes out is accepted only
+    // if it still runs into the FULL budget, otherwise the case is reported as it was found.
+    if sig.starts_with("nonterminating:file_reads") {
+        std::env::set_var("VERIF_MINIMISER_READ_BUDGET", (READ_BUDGET / 10).to_string());
+        let (small, _) = minimise_inner(cli, &best, found, &sig);
+        std::env::remove_var("VERIF_MINIMISER_READ_BUDGET");
+        return match run_isolated_case(cli, &small) {
+            Some(f) if f.sig == sig => (small, f),
+            _ => (best, found.clone()),
+        };
+    }
+    minimise_inner(cli, &best, found, &sig)
+}
+
+fn minimise_inner(cli: &Cli, c: &Case, found: &Found, sig: &str) -> (Case, Found) {
+    let same = |x: &Case| matches!(run_isolated_case(cli, x), Some(f) if f.sig == sig);
+    let mut best = c.clone();
     // faults
     if !best.faults.is_empty() {
         let base = best.clone();
